@@ -403,3 +403,22 @@ META["C05"] = {
     "floors": {"quick": {"compiled": 2000, "elements_checked": 400000, "three_party_executions": 2000, "distinct_nontrivial": 1500},
                "thorough": {"compiled": 20000, "elements_checked": 10000000, "three_party_executions": 40000, "distinct_nontrivial": 15000}},
 }
+
+
+META["C18"] = {
+    "level": "exploration",
+    "rule": "plaintext Sort on tables with 1..12 rows x key widths 1..10 bits (every combination in rotation), keys drawn from 1-3 distinct "
+            "values / uniform / already sorted / reversed, 0-2 payload columns of any scalar type and rank 1-3, key column at any "
+            "position; SortByIntegerKey over all 11 key types incl. negative keys; permutations: all n! for n <= 5 and random ones up to "
+            "12 through apply / apply-inverse / inverse_permutation round trips; compiled Sort, SortByIntegerKey and ApplyPermutation "
+            "under random owner / output / inline configurations executed by one evaluator and by three parties; a case is one table "
+            "or permutation; non-trivial = at least 2 rows; distinct by hash of (type, contents / configuration)",
+    "assumptions": COMMON_ASSUMPTIONS + [
+        "oracle = Rust's stable sort on row indices by the key (bit strings compared lexicographically from index 0; integer keys by "
+        "numeric value), the same row order applied to every column", M2_ASSUMPTION,
+    ],
+    "floors": {"quick": {"tables_compared": 3500, "permutation_round_trips": 1000, "compiled": 80, "compiled_executions": 150,
+                         "three_party_executions": 150, "distinct_nontrivial": 3000},
+               "thorough": {"tables_compared": 70000, "permutation_round_trips": 20000, "compiled": 1600, "compiled_executions": 3000,
+                            "three_party_executions": 3000, "distinct_nontrivial": 60000}},
+}
